@@ -12,6 +12,8 @@ import (
 func init() {
 	f := "internal/token/serialize.go"
 	register(&Property{ID: "C23", Run: runC23, Mutants: []Mutant{
+		{Name: "the next file's base ignores this file's spare capacity", File: "internal/token/position.go", Old: "\tbase += cap + 1 // +1 because EOF also has a position", New: "\tbase += size + 1 // +1 because EOF also has a position", Expect: "fileset-range-reserved"},
+		{Name: "Read keeps the lookup cache of the old file list", File: "internal/token/serialize.go", Old: "\ts.files = files\n\ts.last = nil\n", New: "\ts.files = files\n", Expect: "fileset-cache-invalidation"},
 		{Name: "two serialized fields share a JSON name", File: "internal/token/position.go", Old: "\tLine, Column int", New: "\tLine   int `json:\"line\"`\n\tColumn int `json:\"line\"`", Expect: "serialized-name-unique :: token.lineInfo"},
 		{Name: "nil-check panic block shared per function", File: "internal/ssa/emit.go", Old: "\tpanicInstr := &Panic{X: panicMsg}\n\tpanicInstr.pos = pos\n\tf.emit(panicInstr)", New: "\tif len(panicBlock.Instrs) == 0 {\n\t\tpanicInstr := &Panic{X: panicMsg}\n\t\tpanicInstr.pos = pos\n\t\tf.emit(panicInstr)\n\t}", Expect: "panic-position-per-site :: internal/ssa.emitNilCheck"},
 		{Name: "line table not serialized", File: f, Old: "\t\t\tLines: append([]int(nil), f.lines...),\n", New: "", Expect: "position-field-coverage :: File.lines"},
@@ -36,6 +38,7 @@ func runC23(c *Ctx) {
 		return
 	}
 	c23Extra(c, p, tk)
+	c23FileSet(c, p, tk)
 	if sp := p.MustPkg("panic-position-per-site", "internal/ssa"); sp != nil {
 		c23PanicSites(c, p, sp)
 	}
